@@ -82,8 +82,11 @@ func runC16(c *Ctx) {
 
 // R16.1 who-may-write
 func r16_1(c *Ctx, a *c16anchors) {
-	c.rule("R16.1", "who-may-write the context stack: constructor ([Global] literal), push, pop; no alias, no element write")
+	c.rule("R16.1", "who-may-write the context stack: constructor ([Global] literal, or one unconditional push of Global on the empty stack), push, pop; no alias, no element write")
 	c.floor(3)
+	if ip := ctorInitialPush(a); ip != nil {
+		c.ok(fnName(a.ctor)+": initial stack", ip.Pos(), "one unconditional PushContext(GlobalContext) on the freshly built parser")
+	}
 	n := map[*ssa.Function]int{}
 	for _, f := range c.libFunctions() {
 		allInstrs(f, func(_ *ssa.BasicBlock, _ int, in ssa.Instruction) {
@@ -304,6 +307,40 @@ func nonEmptyTest(b *ssa.BinOp, a *c16anchors) bool {
 	return ok && ne
 }
 
+// ctorInitialPush: the constructor establishes the one-element [Global] stack by a single unconditional
+// PushContext(GlobalContext) on the freshly built parser, instead of a literal: no store to the stack field in the
+// constructor, exactly one push call, in the entry-dominating part, with the Global constant.
+func ctorInitialPush(a *c16anchors) *ssa.Call {
+	if a.ctor == nil {
+		return nil
+	}
+	var pushes []*ssa.Call
+	stores := 0
+	allInstrs(a.ctor, func(_ *ssa.BasicBlock, _ int, in ssa.Instruction) {
+		if call, ok := in.(*ssa.Call); ok && staticCallee(call) == a.push {
+			pushes = append(pushes, call)
+		}
+		if st, ok := in.(*ssa.Store); ok {
+			if _, ok := isFieldAddr(st.Addr, a.stack); ok {
+				stores++
+			}
+		}
+	})
+	if len(pushes) != 1 || stores != 0 {
+		return nil
+	}
+	p := pushes[0]
+	if k, ok := constInt64(unwrap(p.Call.Args[1])); !ok || k != a.global {
+		return nil
+	}
+	for _, r := range nonRecoverReturns(a.ctor) {
+		if !instrDominates(p, r) {
+			return nil
+		}
+	}
+	return p
+}
+
 // R16.3 balance on every path
 type balState struct {
 	net, deferred int
@@ -315,6 +352,10 @@ func r16_3(c *Ctx, a *c16anchors) {
 	c.floor(2)
 	for _, f := range c.libFunctions("parser") {
 		if f == a.push || f == a.pop {
+			continue
+		}
+		if f == a.ctor && ctorInitialPush(a) != nil {
+			c.ok(fnName(f)+": initial push", ctorInitialPush(a).Pos(), "the constructor's one unconditional push of GlobalContext on the empty stack is the initial [Global] stack")
 			continue
 		}
 		uses := false
@@ -646,6 +687,9 @@ func r16_4(c *Ctx, a *c16anchors) {
 			})
 		}
 		r, isRole := roleFns[f]
+		if !isRole && f == a.ctor && ctorInitialPush(a) != nil {
+			continue // the initial [Global] stack (R16.1 / R16.3)
+		}
 		if !isRole {
 			for i, p := range pushes {
 				c.bad(fmt.Sprintf("%s: push #%d outside a nesting construct", fnName(f), i+1), p.Pos(), "a context is pushed in a function that builds neither a function body nor a block: queries would no longer equal the syntactic nesting")
